@@ -41,7 +41,10 @@
 // statements + one statement with a runtime lookahead + a long tail for k in 0..600 (quick: every
 // 8th k, 0..5 and all k = 500..520 mod 512), cancelled at the first callbacks and on both sides
 // of every poll boundary — generated grammar (plain and optimizeTables+tokenStream), shipped test
-// and js parsers.
+// and js parsers; (4) the same phase family on DECISION LISTS with two predicate tests in
+// sequence (`(?= PA) | (?= !PA & PB) | (?= !PA & !PB)`: the poll can fall inside the first
+// predicate, inside the second, or between them), evaluated by applyRule (glmc, glmo) and inside
+// a lookahead by lookaheadRule (glmr, recursiveLookaheads).
 //
 // A finding whose run polled the context at least twice after the cancellation gets the key
 // prefix "poll-saw-cancellation-but-parse-continued": some poll saw the closed Done channel and
@@ -791,6 +794,49 @@ Stmt:
 P: tc tc td ;
 `
 
+// Decision lists with two predicate tests in sequence: the generated chain is
+// `if ok, err = AtPA(..); ok {..} else if ok, err = AtPB(..); ok {..} else {..}`. The 0x200-th
+// counted shift (and with it the poll) can fall inside the first predicate, inside the second or
+// between them; k decides which.
+const multiParser = `
+:: parser
+
+%input S;
+
+S -> Root: Stmt+ ;
+Stmt:
+    ta -> Pad
+  | tb (?= PA) tc tc tc td -> ViaA
+  | tb (?= !PA & PB) tc tc tc ta -> ViaB
+  | tb (?= !PA & !PB) tc tc tc tb -> ViaC
+;
+PA: tc tc tc td ;
+PB: tc tc tc ta ;
+`
+
+// The same decision list evaluated INSIDE a lookahead (lookaheadRule instead of applyRule's
+// cases); needs recursiveLookaheads.
+const multiNestedParser = `
+:: parser
+
+%input S;
+
+S -> Root: Stmt+ ;
+Stmt:
+    ta -> Pad
+  | (?= Q) tb X -> ViaQ
+  | (?= !Q) tb tb -> ViaN
+;
+Q: tb X ;
+X:
+    (?= PA) tc tc tc td -> XA
+  | (?= !PA & PB) tc tc tc ta -> XB
+  | (?= !PA & !PB) tc tc tc tb -> XC
+;
+PA: tc tc tc td ;
+PB: tc tc tc ta ;
+`
+
 func phaseKs(quick bool) []int {
 	var ks []int
 	for k := 0; k <= 600; k++ {
@@ -823,7 +869,23 @@ func layerB2(c *core.Ctx, st *stats) {
 			phaseO.Inputs = append(phaseO.Inputs, genInput{fmt.Sprintf("pad%d+A", k), strings.Repeat("a", k) + "bccd" + strings.Repeat("a", 700)})
 		}
 	}
-	ps := []genParser{rec, recO, phase, phaseO}
+	multi := genParser{Name: "glmc", TM: header("glmc") + listLexer + multiParser, Lookaheads: 2}
+	multiO := genParser{Name: "glmo", TM: header("glmo", "optimizeTables = true", "tokenStream = true") + listLexer + multiParser, Lookaheads: 2}
+	multiR := genParser{Name: "glmr", TM: header("glmr", "recursiveLookaheads = true") + listLexer + multiNestedParser, Lookaheads: 5}
+	for _, k := range phaseKs(c.Quick()) {
+		dense := k%512 >= 495 && k%512 <= 520
+		for vi, tail := range []string{"bcccd", "bccca", "bcccb"} {
+			in := genInput{fmt.Sprintf("pad%d+%c", k, 'A'+vi), strings.Repeat("a", k) + tail + strings.Repeat("a", 700)}
+			if dense || !c.Quick() || k%24 == 8*vi {
+				multi.Inputs = append(multi.Inputs, in)
+			}
+			if dense {
+				multiO.Inputs = append(multiO.Inputs, in)
+				multiR.Inputs = append(multiR.Inputs, in)
+			}
+		}
+	}
+	ps := []genParser{rec, recO, phase, phaseO, multi, multiO, multiR}
 	var specs []genharness.Spec
 	for i, p := range ps {
 		var cases []genharness.Case
@@ -1479,7 +1541,7 @@ func shippedPart(c *core.Ctx, st *stats) {
 // ---------------------------------------------------------------------------------------------
 
 func run(c *core.Ctx) {
-	c.Rule("generated cancellable parsers (list grammar x cancellableFetch on/off x tokenStream on/off, optimizeTables, a value-returning list, a runtime lookahead (?= P) whose predicate shifts > 1000 tokens, accepting and failing) x inputs of 1100-1600 tokens x EVERY moment s = number of tokens delivered by the lexer(s) at which the context is cancelled (0 = before Parse .. final clock + 3 = never), plus never and an expired deadline context; shipped js/tm/test parsers x 2-3 long inputs x moments counted in listener calls (quick: every 8th + poll boundaries +-2, thorough: every); plus malformed inputs (generated recovering grammar, long and short malformed js/tm texts: every moment for the short ones) with the uncancelled run, whatever it returns, as reference; plus the phase family pad x k + lookahead statement + tail, k in 0..600 (quick: strided, all k = 500..520 mod 512), cancelled at the first callbacks and around every poll. non-trivial = cancelled run that returned the ctx error after reporting a non-empty proper prefix of the events. states = distinct (parser, input, moment, polls made when the parse stopped); transitions = parses run; traces = parses compared with the uncancelled reference")
+	c.Rule("generated cancellable parsers (list grammar x cancellableFetch on/off x tokenStream on/off, optimizeTables, a value-returning list, a runtime lookahead (?= P) whose predicate shifts > 1000 tokens, accepting and failing) x inputs of 1100-1600 tokens x EVERY moment s = number of tokens delivered by the lexer(s) at which the context is cancelled (0 = before Parse .. final clock + 3 = never), plus never and an expired deadline context; shipped js/tm/test parsers x 2-3 long inputs x moments counted in listener calls (quick: every 8th + poll boundaries +-2, thorough: every); plus malformed inputs (generated recovering grammar, long and short malformed js/tm texts: every moment for the short ones) with the uncancelled run, whatever it returns, as reference; plus the phase family pad x k + lookahead statement + tail, k in 0..600 (quick: strided, all k = 500..520 mod 512), cancelled at the first callbacks and around every poll, also for grammars whose lookahead decision list tests two predicates in sequence (applyRule and lookaheadRule chains). non-trivial = cancelled run that returned the ctx error after reporting a non-empty proper prefix of the events. states = distinct (parser, input, moment, polls made when the parse stopped); transitions = parses run; traces = parses compared with the uncancelled reference")
 	c.Assume("generated parsers: the clock is advanced by a lexer-rule action `{ verifTick() }` on every token rule; shipped parsers: by the listener")
 	c.Assume("event lists are compared through a 64-bit FNV-1a chain hash over (type, offset, endoffset)")
 	st := &stats{seen: map[string]bool{}}
